@@ -6,10 +6,12 @@ the same machine on concrete configurations with the slot values stated as Real 
 spatial_average as one action per frame with a cursor on the neighbour file, time_average
 as one action per window.  The clauses of the property are TLC invariants.
 
-Direction A: every case TLC prints is rendered (snapshots, neighbour files, arrays), the
+Direction A: every case TLC prints is rendered (snapshots with per-frame cells and bounds,
+neighbour files with the rows in the order the spec states, property arrays in one of several
+representations: float64 / int / bool / float32 / read-only / strided / Fortran order), the
 public routine is called, the result is compared with the spec's expectation (rationals,
-admissible sets, evaluated terms).  Grid positions are projected to integers and handed to
-TraceCoarseGrain.tla, which decides bijection / order.
+admissible sets, evaluated terms).  Grid positions of every frame are projected to integers and
+handed to TraceCoarseGrain.tla, which decides bijection / order / spanning that frame's bounds.
 Direction B: seeded random scaled-integer inputs, larger than TLC's scope, are run through
 the real code; TraceCoarseGrain.tla (with the file cursor as a spec variable) accepts or
 rejects the discrete observations and prints the expected terms of the blurred values.
@@ -29,7 +31,7 @@ from .common import Check, MachineryError, require_model_ok, run_tlc, run_tlc_sh
 
 GRID_INVS = ["InvWriteOnce", "InvFlatIndexIsBijection", "InvXSlowest", "InvSlotIsUnflat", "InvVisitOrder"]
 BLUR_INVS = ["InvWriteOnce", "InvFlatIndexIsBijection", "InvXSlowest", "InvSlotIsUnflat", "InvImagesAreMinImage",
-             "InvGridSpansFrameBounds"]
+             "InvGridSpansFrameBounds", "InvBlurUnwrapInvariant"]
 SPATIAL_INVS = ["InvCursorFollowsFrames", "InvSpatialMeanDefinition", "InvSpatialConvex", "InvSpatialConstant",
                 "InvNoSelfCountedTwice", "InvRowOrderIrrelevant", "InvBoolIsFraction", "InvNmaxAboveCounts"]
 WINDOW_INVS = ["InvWindowLenIsFloor", "InvExactMultiple", "InvWindowComplete", "InvWindowCentre",
@@ -180,6 +182,8 @@ def blur_call(gaussian_blurring, ss, cond, ng, sigma, ppp, cut, outputfile="", n
             pa = np.array(ppp)
             if ngkind == 2:
                 pa.setflags(write=False)
+            elif ngkind == 1 and len(ng) == 2:
+                pa = np.array(list(ppp) + [1])       # a three-entry mask (the default's length) for a 2-D system
             gp, gv = gaussian_blurring(ss, cond, nga, sigma=sigma, ppp=pa, gaussian_cut=cut, outputfile=outputfile)
         return np.asarray(gp), np.asarray(gv), None
     except Exception as e:  # the library failing on a valid input is a violation
@@ -435,6 +439,14 @@ def gen_blur(rng, lib, ncalls, trace, ctx):
         sig = rng.choice([[1, 2], [1, 1], [3, 2], [2, 1]])
         cut = [rng.randint(2, 8), 2]
         ppp = [rng.randint(0, 1) for _ in range(d)]
+        if call % 2:           # unwrapped coordinates: particles displaced by -2..3 whole cell vectors along periodic axes
+            for f in range(F):
+                for p in pos[f]:
+                    for k in range(d):
+                        if ppp[k]:
+                            n = rng.randint(-2, 3)
+                            for x in range(d):
+                                p[x] += n * cells[f][0][k][x]
         rank = rng.randint(0, 2)
         kind = rng.choice(BLUR_KINDS)
         cond = cond_array(rng, F, N, d, rank, kind)
@@ -508,7 +520,10 @@ def gen_spatial(rng, lib, ncalls, trace, tmp, ctx, chk=None):
         brief = {"N": N, "F": F, "nmax": nmax, "rank": rank, "d": d, "call": call, "dtype": kind,
                  "max_cn": max(len(r) for fr in lists for r in fr)}
         try:
-            out = np.asarray(lib["spatial_average"](prop, path, Nmax=nmax))
+            if nmax == 30 and call % 2:
+                out = np.asarray(lib["spatial_average"](prop, path))          # documented default Nmax = 30
+            else:
+                out = np.asarray(lib["spatial_average"](prop, path, Nmax=nmax))
         except Exception as e:
             ctx.append(("raise", f"raises:{type(e).__name__}", dict(brief, file=file, error=str(e))))
             continue
@@ -740,8 +755,10 @@ def run(tier, replay=None):
     lib = load_lib()
     chk = Check("C16", tier)
     chk.rule = ("A: TLC runs the Visit / AvgFrame / Window machines of MC_CoarseGrain over the whole scope (clauses = invariants) and "
-                "prints one case per finished behaviour; each is rendered and replayed into gaussian_blurring (ranks 0-2), "
-                "spatial_average, time_average. Returned grid positions are projected to integers and decided by TraceCoarseGrain. "
+                "prints one case per finished behaviour (trajectories with per-frame cells / bounds, neighbour files with rows in any "
+                "order, real / complex / bool properties); each is rendered (arrays as float64 / int / bool / float32 / read-only / "
+                "strided / Fortran) and replayed into gaussian_blurring (ranks 0-2, every frame), spatial_average, time_average. "
+                "Returned grid positions of every frame are projected to integers and decided by TraceCoarseGrain. "
                 "B: seeded random scaled-integer inputs through the real code; TraceCoarseGrain (file cursor = spec variable) "
                 "decides grid order, neighbour averages per frame, window length / centre / mean, and prints the expected blur terms. "
                 "distinct = replayed cases + accepted trace records with a non-empty selection / neighbour list.")
@@ -750,7 +767,9 @@ def run(tier, replay=None):
                        "minimum-image ties of tilted cells that change the distance are skipped",
                        "number of reported windows T-w (code) or T-w+1 (all complete windows) both accepted",
                        "window length asserted only for dyadic dt and period (float quotient exact)",
-                       "a neighbour id listed twice counts twice; truncation to Nmax as specified by C05"]
+                       "a neighbour id listed twice counts twice; truncation to Nmax as specified by C05",
+                       "rows of a neighbour-file frame may come in any order (the id column decides, C05)",
+                       "float32 / complex64 inputs are compared at 2e-6 (results carry the input precision)"]
     tmp = common.scratch_dir("verif_c16_")
     rng = random.Random(common.SEED * 104729 + 16)
     try:
